@@ -16,22 +16,22 @@ const rePkg = "github.com/bazelbuild/remote-apis/build/bazel/remote/execution/v2
 func init() {
 	register(&Rule{
 		ID: "R13.1", Props: []string{"C13"}, Engine: "table (type-driven exhaustiveness) + guard",
-		Text: "exhaustive digest enumeration: every field of type *Digest reachable from remoteexecution.ActionResult and remoteexecution.Directory through message and repeated-message fields (enumerated from the generated Go types on every run) is loaded in checkCompleteness and handed to findMissingQueue.add; these calls, the read of each output directory's Tree and its traversal are conditional on nothing but: success of earlier steps, loop bounds, the Tree root/children field numbers (which equal the field numbers of Tree.root and Tree.children), the size budget, and – for DirectoryNode.Digest only – RootDirectoryDigest != nil",
+		Text:  "exhaustive digest enumeration: every field of type *Digest reachable from remoteexecution.ActionResult and remoteexecution.Directory through message and repeated-message fields (enumerated from the generated Go types on every run) is loaded in checkCompleteness and handed to findMissingQueue.add; these calls, the read of each output directory's Tree and its traversal are conditional on nothing but: success of earlier steps, loop bounds, the Tree root/children field numbers (which equal the field numbers of Tree.root and Tree.children), the size budget, and – for DirectoryNode.Digest only – RootDirectoryDigest != nil",
 		Floor: 9, MustExist: true, Run: runR131,
 	})
 	register(&Rule{
 		ID: "R13.2", Props: []string{"C13"}, Engine: "guard + flow",
-		Text: "the ActionResult is returned only when complete: the only return of completenessCheckingBlobAccess.Get that carries the backend's buffer is dominated by the nil edges of ToProto and of checkCompleteness applied to that very message; every other return is NewBufferFromError of the respective error",
+		Text:  "the ActionResult is returned only when complete: the only return of completenessCheckingBlobAccess.Get that carries the backend's buffer is dominated by the nil edges of ToProto and of checkCompleteness applied to that very message; every other return is NewBufferFromError of the respective error",
 		Floor: 1, MustExist: true, Run: runR132,
 	})
 	register(&Rule{
 		ID: "R13.3", Props: []string{"C13"}, Engine: "order + guard",
-		Text: "the queue is always flushed and a non-empty answer is NOT_FOUND: every success exit of checkCompleteness is the result of findMissingQueue.finalize(); add() replaces the pending builder only after a successful finalize(); finalize() returns nil only when the CAS reported nothing missing; malformed digests become NOT_FOUND",
+		Text:  "the queue is always flushed and a non-empty answer is NOT_FOUND: every success exit of checkCompleteness is the result of findMissingQueue.finalize(); add() replaces the pending builder only after a successful finalize(); finalize() returns nil only when the CAS reported nothing missing; malformed digests become NOT_FOUND",
 		Floor: 4, MustExist: true, Run: runR133,
 	})
 	register(&Rule{
 		ID: "R13.4", Props: []string{"C13"}, Engine: "guard",
-		Text: "unreadable or corrupted Trees are errors: util.VisitProtoBytesFields reports a clean end of message only when the reader's error is io.EOF (with nothing buffered); every other reader or visitor error is returned; checkCompleteness returns the traversal's error (after draining the Tree to prefer read errors)",
+		Text:  "unreadable or corrupted Trees are errors: util.VisitProtoBytesFields reports a clean end of message only when the reader's error is io.EOF (with nothing buffered); every other reader or visitor error is returned; checkCompleteness returns the traversal's error (after draining the Tree to prefer read errors)",
 		Floor: 2, MustExist: true, Run: runR134,
 	})
 }
